@@ -270,7 +270,11 @@ func RecordEngine(w io.Writer, q Node, doc Node, st Style, options []string) (ev
 // sharing one input): the call event carries the document as the caller first built it.
 func RecordEngineOn(w io.Writer, q Node, doc Node, real map[string]any, st Style, options []string) (events int, out Outcome) {
 	enc := json.NewEncoder(w)
-	enc.Encode(Node{"ev": "call", "q": q, "doc": doc})
+	call := Node{"ev": "call", "q": q, "doc": doc}
+	if b := BeyondClaims(q); len(b) > 0 {
+		call["beyond"] = b
+	}
+	enc.Encode(call)
 	events++
 	out = Run(real, st.Query(q), true, Opts(options, nil, nil)...)
 	for _, e := range out.Stages {
@@ -824,6 +828,17 @@ func (g *Gen) MixQuery() Node {
 		inner := With(BaseQ(), "where", CmpE(g.Str(cmpOps), Col("c"), Lit(TInt(g.R.Intn(4)))))
 		q["from"] = Derived(inner, "x")
 		pre = []string{"x"}
+	case 3: // a join of t and u on their common column c, written with ON or with USING
+		// (inner and left only: the select list and WHERE below read the left side, which a RIGHT join leaves NULL for
+		// unmatched rows - and what comparisons and functions do with NULL is not claimed anywhere)
+		j := Node{"k": "join", "type": g.Pick("inner", "left").(string), "kw": "", "l": Table("x", "t"), "r": Table("y", "u")}
+		if g.R.Intn(2) == 0 {
+			j["using"] = []any{"c"}
+		} else {
+			j["on"] = CmpE(g.Pick("=", "<=", "!=").(string), Col("x", "c"), Col("y", "c"))
+		}
+		q["from"] = j
+		pre = []string{"x"}
 	case 2: // UNION [ALL] of two projections, with LIMIT
 		l := With(BaseQ(), "sel", []any{Item(Col("a"), ""), Item(Col("g"), "")}, "where", CmpE(g.Str(cmpOps), Col("a"), Lit(TInt(g.R.Intn(9)))))
 		r := With(BaseQ(), "sel", []any{Item(Col("c"), "a"), Item(Col("g"), "")})
@@ -883,7 +898,12 @@ func (g *Gen) MixQuery() Node {
 	} else {
 		sel := []any{}
 		for x := 0; x <= g.R.Intn(4); x++ {
-			switch g.R.Intn(7) {
+			switch g.R.Intn(8) {
+			case 6:
+				// SUBSTR on a text that is long enough most of the time (a range outside the string fails the query)
+				str := Node{"k": "fn", "f": "concat", "args": []any{col("s"), Lit(TStr(g.Pick("ab", "abc", "").(string)))}}
+				sel = append(sel, Item(Node{"k": "substr", "s": str, "from": Lit(TInt(g.R.Intn(3))), "len": Lit(TInt(g.R.Intn(3)))}, "sb"))
+				out = append(out, "sb")
 			case 0:
 				if len(pre) == 0 {
 					sel = append(sel, Star())
